@@ -263,7 +263,7 @@ def gen(prop, stream, tier, avoid):
     sizes = sorted(set(kn.randint(1, 8 if tier == "thorough" or kn.chance(0.3) else 5) for _ in range(kn.randint(1, 3))))
     weights = [(r, kn.uniform(0.2, 1.0)) for r in MATRIX_ROUTINES]
     weights += [("matrix_identity", kn.uniform(0.1, 0.6)), ("helper", kn.uniform(0.0, 0.6)),
-                ("reject", kn.uniform(0.0, 0.2))]
+                ("reject", kn.uniform(0.0, 0.2)), ("pivot_then", kn.uniform(0.0, 0.4))]
     ops = []
     perturb_p = kn.pick([0.0, 0.2, 0.5])
     held_p = kn.pick([0.0, 0.25, 0.5])
@@ -305,6 +305,13 @@ def gen(prop, stream, tier, avoid):
             if r == "matrix_pivot":
                 op["sign"] = rng.chance(0.5)
             ops.append(op)
+        elif r == "pivot_then":
+            # the caller takes the matrix RETURNED by matrix_pivot, reorders its rows in place and hands that very object to
+            # another routine: the answer is the answer for the values it holds now
+            a, mclass, n = _matrix(rng, "matrix_pivot", sizes)
+            if n >= 2 and mclass != "breakdown":
+                ops.append({"op": "pivot_then", "A": a, "mclass": "pivot_result_edited", "n": n, "edit": rng.pick(["reverse", "swap"]),
+                            "then": rng.pick(["matrix_determinant", "matrix_determinant", "lu_factor", "matrix_inverse"]), "b": _rhs(rng, n)})
         elif r == "matrix_identity":
             ops.append({"op": "matrix_identity", "n": rng.pick(sizes)})
         elif r == "reject":
@@ -412,6 +419,18 @@ def _call(op):
     k = op["op"]
     if op.get("seq") == "tuple" and op.get("held_from") is None and "A" in op:
         op = dict(op, A=tuple(tuple(r) for r in op["A"]))
+    if k == "pivot_then":
+        mp = L.matrix_pivot(op["A"])[0]
+        if op["edit"] == "reverse":
+            mp.reverse()
+        else:
+            mp[0], mp[-1] = mp[-1], mp[0]
+        vals = [list(r_) for r_ in mp]
+        if op["then"] == "matrix_determinant":
+            return (vals, L.matrix_determinant(mp))
+        if op["then"] == "matrix_inverse":
+            return (vals, L.matrix_inverse(mp))
+        return (vals, L.lu_factor(mp, op["b"]))
     if k == "lu_solve":
         return L.lu_solve(op["A"], op["b"])
     if k == "lu_factor":
@@ -612,6 +631,25 @@ def run(script, ctx):
             if order != list(range(n)):
                 swapped_sizes.add(n)
                 ctx.probe("row_swap_needed")
+        if k == "pivot_then":
+            vals, res2 = res
+            ctx.probe("returned_pivot_matrix_edited_and_passed_on")
+            if op["then"] == "matrix_determinant":
+                exact = R.det(R.frm(vals))
+                if not isinstance(res2, float) or abs(R.fr(res2) - exact) > F(1, 10 ** 9) * max(abs(exact), F(1, 10 ** 6)):
+                    ctx.fail("wrong_result", "matrix_determinant of the (re-ordered) matrix returned by matrix_pivot = %r, exact %s   M=%r" % (
+                        res2, exact, vals), **sig)
+            elif op["then"] == "matrix_inverse":
+                ident = [[1 if i_ == j_ else 0 for j_ in range(n)] for i_ in range(n)]
+                worst, bound = _residual(vals, res2, ident)
+                if worst > TOL * bound:
+                    ctx.fail("wrong_result", "matrix_inverse of the (re-ordered) matrix returned by matrix_pivot: |M M^-1 - I| = %.3g   M=%r" % (worst, vals), **sig)
+            else:
+                worst, bound = _residual(vals, res2, op["b"])
+                if worst > TOL * bound:
+                    ctx.fail("wrong_result", "lu_factor on the (re-ordered) matrix returned by matrix_pivot: |M x - b| = %.3g   M=%r" % (worst, vals), **sig)
+            ctx.state("%s:%s" % (k, op["then"]))
+            continue
         if k in ("lu_solve", "lu_factor"):
             if shape_of(res) != shape_of(op["b"]) or not _finite(res):
                 ctx.fail("wrong_result", "%s returned shape %r / non-finite for rhs shape %r" % (k, shape_of(res), shape_of(op["b"])), **sig)
